@@ -183,9 +183,9 @@ static Bytes build_pass(const PassDef &pd, size_t base, bool zerocol) {
 }
 
 // program encoding in Fault.a (OVR_SILFPROG): [np, nsub, numUser, ijust_is_np, rtl, then per pass: maxloop, nrules, per rule: len, match[len], conslen, cons[conslen], alen, action[alen]]
-struct SynthHdr { unsigned skipattr = 0;   /* 0 = none, a+1 = glyph attribute a holds the per-glyph pass-skip bits */ bool badlb = false; bool zerocol = false; unsigned bidi = 0;   /* bidi: 0 = no bidi pass, k+1 = the bidi step sits before pass jPass+k (clamped) */ unsigned flags = 0; std::vector<unsigned> just; unsigned nlb = 0; };   // nlb: the first nlb passes are line-break passes (iSubst = nlb)   // Silf flags byte (bit 0: line-end contextuals), justification levels (4 attribute numbers each)
+struct SynthHdr { bool hugecls = false;   /* class map announcing 32766+ linear classes with 16-bit offsets (the arithmetic on them no longer fits 16 bits) */ unsigned skipattr = 0;   /* 0 = none, a+1 = glyph attribute a holds the per-glyph pass-skip bits */ bool badlb = false; bool zerocol = false; unsigned bidi = 0;   /* bidi: 0 = no bidi pass, k+1 = the bidi step sits before pass jPass+k (clamped) */ unsigned flags = 0; std::vector<unsigned> just; unsigned nlb = 0; };   // nlb: the first nlb passes are line-break passes (iSubst = nlb)   // Silf flags byte (bit 0: line-end contextuals), justification levels (4 attribute numbers each)
 static void encode_prog(const std::vector<PassDef> &passes, unsigned nsub, unsigned numUser, bool ijust_np, bool rtl, const SynthHdr &h, std::vector<i64> &a) {
-    a = {i64(passes.size()), i64(nsub), i64(numUser), ijust_np ? 1 : 0, i64((rtl ? 1 : 0) | (h.bidi << 4)), i64(h.flags | (h.badlb ? 2u : 0u) | (h.zerocol ? 4u : 0u) | (h.skipattr << 4)), i64(h.just.size() / 4)};
+    a = {i64(passes.size()), i64(nsub), i64(numUser), ijust_np ? 1 : 0, i64((rtl ? 1 : 0) | (h.bidi << 4)), i64(h.flags | (h.badlb ? 2u : 0u) | (h.zerocol ? 4u : 0u) | (h.hugecls ? 8u : 0u) | (h.skipattr << 4)), i64(h.just.size() / 4)};
     for (unsigned v : h.just) a.push_back(v);
     a.push_back(h.nlb);
     for (auto &pd : passes) { a.push_back(i64(pd.maxloop | (pd.prectx << 8) | (pd.pcons.empty() ? 0u : 0x400u) | (pd.revdir ? 0x800u : 0u))); a.push_back(i64(pd.rules.size()));
@@ -196,7 +196,7 @@ static bool decode_prog(const std::vector<i64> &a, std::vector<PassDef> &passes,
     size_t i = 0; auto get = [&](i64 &v) { if (i >= a.size()) return false; v = a[i++]; return true; };
     i64 np, v; if (!get(np) || np < 1 || np > 16) return false; if (!get(v)) return false; nsub = unsigned(v < 0 ? 0 : v > np ? np : v); if (!get(v)) return false; numUser = unsigned(v & 7);
     if (!get(v)) return false; ijust_np = v != 0; if (!get(v)) return false; rtl = (v & 1) != 0; const unsigned bidi_in = unsigned((v >> 4) & 0xF);
-    if (!get(v)) return false; h.flags = unsigned(v & 1); h.badlb = (v & 2) != 0; h.zerocol = (v & 4) != 0; h.skipattr = unsigned((v >> 4) & 0xF); h.bidi = bidi_in;   /* bit 1: the line-end glyph id names no glyph of the font */ i64 nj; if (!get(nj) || nj < 0 || nj > 3) return false; for (i64 q = 0; q < 4 * nj; ++q) { if (!get(v)) return false; h.just.push_back(unsigned(v & 0xFF)); }
+    if (!get(v)) return false; h.flags = unsigned(v & 1); h.badlb = (v & 2) != 0; h.zerocol = (v & 4) != 0; h.hugecls = (v & 8) != 0; h.skipattr = unsigned((v >> 4) & 0xF); h.bidi = bidi_in;   /* bit 1: the line-end glyph id names no glyph of the font */ i64 nj; if (!get(nj) || nj < 0 || nj > 3) return false; for (i64 q = 0; q < 4 * nj; ++q) { if (!get(v)) return false; h.just.push_back(unsigned(v & 0xFF)); }
     if (!get(v)) return false; h.nlb = unsigned(v < 0 ? 0 : v); if (h.nlb > nsub) h.nlb = nsub;
     for (i64 p = 0; p < np; ++p) { PassDef pd; i64 nr; if (!get(v)) return false; pd.maxloop = unsigned(v & 0xFF); pd.prectx = unsigned((v >> 8) & 3); const bool haspc = (v & 0x400) != 0; pd.revdir = (v & 0x800) != 0; if (!get(nr) || nr < 1 || nr > 32) return false;
         if (haspc) { i64 pl; if (!get(pl) || pl < 0 || pl > 250) return false; for (i64 q = 0; q < pl; ++q) { if (!get(v)) return false; pd.pcons.push_back(u8(v)); } }
@@ -277,7 +277,7 @@ static void gen_prog(u64 seed, std::vector<i64> &out) {
         }
         passes.push_back(pd);
     }
-    SynthHdr h; if (r.chance(1, 3)) { h.flags = 1; h.badlb = r.chance(1, 5); } h.zerocol = zerocol; if (r.chance(1, 5)) h.bidi = 1 + r.below(4); if (r.chance(1, 6)) h.skipattr = 1 + r.below(8); if (r.chance(1, 4)) h.nlb = r.below(nsub + 1); if (r.chance(1, 3)) { unsigned nj = 1 + r.below(2); for (unsigned q = 0; q < 4 * nj; ++q) h.just.push_back(r.below(6)); }
+    SynthHdr h; if (r.chance(1, 3)) { h.flags = 1; h.badlb = r.chance(1, 5); } h.zerocol = zerocol; if (r.chance(1, 5)) h.bidi = 1 + r.below(4); if (r.chance(1, 6)) h.skipattr = 1 + r.below(8); if (r.chance(1, 60)) h.hugecls = true; if (r.chance(1, 4)) h.nlb = r.below(nsub + 1); if (r.chance(1, 3)) { unsigned nj = 1 + r.below(2); for (unsigned q = 0; q < 4 * nj; ++q) h.just.push_back(r.below(6)); }
     g_last_matches.clear(); for (auto &pd : passes) for (auto &rd : pd.rules) g_last_matches.push_back(rd.match);
     encode_prog(passes, nsub, numUser, r.chance(1, 2), r.chance(1, 4), h, out);
 }
@@ -310,9 +310,18 @@ void silf_override(Store &st, const Fault &f) {
     const size_t o_passes = s.size(); for (unsigned i = 0; i <= np; ++i) w32(s, 0);
     w16(s, 0); w16(s, 0); w16(s, 0); w16(s, 0);
     // class map: NGLYPH_USED linear classes, class c = { glyph c+1 }
+    if (hdr.hugecls) {
+        // 32766..32767 linear classes, offsets self-consistent modulo 2^16 (first offset = (4 + 2*(n+1)) & 0xFFFF), almost no class data
+        const unsigned n = 32766 + (prog.size() & 1);
+        w16(s, n); w16(s, n);
+        const unsigned first = (4 + 2 * (n + 1)) & 0xFFFF;
+        for (unsigned c = 0; c <= n; ++c) w16(s, (first + 2 * c) & 0xFFFF);
+        for (unsigned c = 0; c < 32; ++c) w16(s, c + 1);
+    } else {
     w16(s, NGLYPH_USED); w16(s, NGLYPH_USED);
     for (unsigned c = 0; c <= NGLYPH_USED; ++c) w16(s, 4 + 2 * (NGLYPH_USED + 1) + 2 * c);
     for (unsigned c = 0; c < NGLYPH_USED; ++c) w16(s, c + 1);
+    }
     for (unsigned i = 0; i < np; ++i) { set32(s, o_passes + 4 * i, u32(s.size())); Bytes p = build_pass(passes[i], s.size(), hdr.zerocol); s.insert(s.end(), p.begin(), p.end()); }
     set32(s, o_passes + 4 * np, u32(s.size()));
     Bytes t; w32(t, 0x00020000); w16(t, 1); w16(t, 0); w32(t, 12); t.insert(t.end(), s.begin(), s.end());
